@@ -12,6 +12,9 @@ pub struct Tok {
     pub sl: u32,
     pub sc: u32,
     pub name: Option<u32>,
+    /// range mapping (the `rangeMappings` proposal): every position of the generated segment maps to
+    /// the original position shifted by the same offset
+    pub range: bool,
 }
 
 #[derive(Clone, Debug, Default)]
@@ -110,9 +113,15 @@ impl Map {
             .unwrap_or(false);
         let mappings = o.get("mappings").and_then(|x| x.as_str()).unwrap_or("");
         let (mut src, mut sl, mut sc, mut name) = (0i64, 0i64, 0i64, 0i64);
+        let rm_lines: Vec<&str> = o.get("rangeMappings").and_then(|x| x.as_str()).unwrap_or("").split(';').collect();
         for (gl, line) in mappings.split(';').enumerate() {
             let mut gc = 0i64;
-            for seg in line.split(',') {
+            // bit i of the line's base64 bitset (6 bits per character, least significant first)
+            let bits: Vec<bool> = rm_lines
+                .get(gl)
+                .map(|l| l.bytes().flat_map(|c| { let v = b64val(c).unwrap_or(0); (0..6).map(move |k| (v >> k) & 1 == 1) }).collect())
+                .unwrap_or_default();
+            for (seg_idx, seg) in line.split(',').enumerate() {
                 if seg.is_empty() {
                     continue;
                 }
@@ -128,6 +137,7 @@ impl Map {
                     sl: 0,
                     sc: 0,
                     name: None,
+                    range: false,
                 };
                 if f.len() >= 4 {
                     src += f[1];
@@ -143,6 +153,7 @@ impl Map {
                 } else if f.len() != 1 {
                     return Err("bad segment arity".into());
                 }
+                t.range = bits.get(seg_idx).copied().unwrap_or(false);
                 m.toks.push(t);
             }
         }
@@ -157,13 +168,33 @@ impl Map {
         let mut line = 0u32;
         let mut gc = 0i64;
         let mut first = true;
+        let mut rm = String::new();
+        let mut line_bits: Vec<bool> = Vec::new();
+        let flush = |bits: &mut Vec<bool>, rm: &mut String| {
+            while bits.last() == Some(&false) {
+                bits.pop();
+            }
+            for chunk in bits.chunks(6) {
+                let mut v = 0usize;
+                for (k, b) in chunk.iter().enumerate() {
+                    if *b {
+                        v |= 1 << k;
+                    }
+                }
+                rm.push(B64[v] as char);
+            }
+            bits.clear();
+        };
         for t in &toks {
             while line < t.gl {
                 mappings.push(';');
+                flush(&mut line_bits, &mut rm);
+                rm.push(';');
                 line += 1;
                 gc = 0;
                 first = true;
             }
+            line_bits.push(t.range);
             if !first {
                 mappings.push(',');
             }
@@ -206,6 +237,10 @@ impl Map {
             );
         }
         o.insert("mappings".into(), Value::from(mappings));
+        if toks.iter().any(|t| t.range) {
+            flush(&mut line_bits, &mut rm);
+            o.insert("rangeMappings".into(), Value::from(rm));
+        }
         Value::Object(o).to_string()
     }
 
@@ -238,6 +273,14 @@ impl Map {
             best = Some(i);
         }
         best.map(|i| &sorted[i])
+    }
+
+    /// resolution of a generated position: the greatest-lower-bound token and the original column it
+    /// gives (a range token on the same line shifts by the distance from its start)
+    pub fn resolve<'a>(sorted: &'a [Tok], line: u32, col: u32) -> Option<(&'a Tok, u32)> {
+        let t = Map::glb(sorted, line, col)?;
+        let sc = if t.range && t.gl == line { t.sc + (col - t.gc) } else { t.sc };
+        Some((t, sc))
     }
 
     /// source name as the `sourcemap` crate presents it (sourceRoot prefixed unless absolute)
